@@ -125,6 +125,10 @@ impl Random {
 
         let mut random_bytes = [0u8; 28];
         rand::fill(&mut random_bytes);
+        #[cfg(rustrtc_verif)]
+        crate::verif_hooks::fill_random(&mut random_bytes);
+        #[cfg(rustrtc_verif)]
+        let gmt_unix_time = (crate::verif_hooks::unix_millis() / 1000) as u32;
 
         Self {
             gmt_unix_time,
